@@ -65,6 +65,8 @@ class Ctx:
     passes = []        # stack of per-pass filter lists
     probing = False
     mode = "solve"
+    objvar = -1
+    lastsol = None
     bound = 10 ** 9
     want_probes = True
     calls = None       # optional: distinct propagator calls met (for the call corpus)
@@ -309,10 +311,14 @@ def wrap_reset(f):
 
 
 def wrap_tighten(f, direction):
-    def g(sds, top, idx, off, var_idx, value):
-        r = f(sds, top, idx, off, var_idx, value)
+    """The tightening after an incumbent.  Nothing is read from the arguments of the internal routine (its signature
+    is not part of any property): the objective variable is the one of the run, the incumbent value is the one the
+    recorder saw when solve_one returned - only the resulting domains are observed."""
+    def g(*a, **kw):
+        r = f(*a, **kw)
         if C.solver is not None:
-            _emit({"k": "T", "d": 0, "var": int(var_idx), "val": int(value), "dir": direction, "box": _box()})
+            val = C.lastsol[C.objvar] if C.lastsol is not None and 0 <= C.objvar < len(C.lastsol) else 0
+            _emit({"k": "T", "d": 0, "var": int(C.objvar), "val": int(val), "dir": direction, "box": _box()})
         return r
 
     return g
@@ -322,6 +328,7 @@ def wrap_solve_one(f):
     def g(*a):
         r = f(*a)
         if C.solver is not None and C.mode != "solve":
+            C.lastsol = None if r is None else [int(x) for x in r]
             _emit({"k": "I", "d": 0, "none": r is None, "sol": [] if r is None else [int(x) for x in r], "stats": _stats()})
         return r
 
@@ -421,6 +428,8 @@ def drive(item):
     C.probing = False
     C.cut = False
     C.mode = mode
+    C.objvar = int(item.get("var", -1)) if item.get("var") is not None else -1
+    C.lastsol = None
     C.bound = 4 * pass_bound(P)
     C.solver = s
     C.tt = 0
@@ -444,10 +453,27 @@ def drive(item):
     except _Timeout:
         raise
     except Exception as e:  # noqa
-        C.ev.append({"k": "X", "d": 0, "type": type(e).__name__, "msg": str(e)[:100]})
+        C.ev.append({"k": "X", "d": 0, "type": type(e).__name__, "msg": str(e)[:100], "origin": _origin(e)})
     finally:
         C.solver = None
     return prob
+
+
+def _origin(e):
+    """Where an exception comes from: "harness" (a frame of the recorder itself is the innermost one: machinery failure),
+    "raise" (a raise statement of the library: a deliberate report / refusal), "other" (anything else, e.g. an indexing
+    error inside the library)."""
+    import linecache
+    import traceback
+    frames = traceback.extract_tb(e.__traceback__)
+    if not frames:
+        return "other"
+    last = frames[-1]
+    here = os.path.dirname(os.path.abspath(__file__))
+    if os.path.abspath(last.filename).startswith(here):
+        return "harness"
+    line = (last.line or linecache.getline(last.filename, last.lineno)).strip()
+    return "raise" if line.startswith("raise ") or line == "raise" else "other"
 
 
 def run_item(item, interp_timeout=20.0):
